@@ -105,6 +105,22 @@ wrap1!(exp => "Exp", log => "Ln", sin => "Sin", cos => "Cos", tan => "Tan", asin
        ceil => "Ceil", round => "Round", trunc => "Trunc");
 wrap2!(pow => "Pow", atan2 => "Atan2", hypot => "Hypot", fmod => "Fmod");
 
+/// LLVM fuses `x.sin()` and `x.cos()` of the same argument into one call of glibc's `sincos`: interpose it too, forward to
+/// the real function and record exactly the two values the library received as (Sin, x) and (Cos, x).
+#[no_mangle]
+pub unsafe extern "C" fn sincos(x: f64, s: *mut f64, c: *mut f64) {
+    type SinCos = extern "C" fn(f64, *mut f64, *mut f64);
+    static mut F: Option<SinCos> = None;
+    if F.is_none() {
+        let p = dlsym(handle(), b"sincos\0".as_ptr() as *const c_char);
+        assert!(!p.is_null());
+        F = Some(std::mem::transmute::<*mut c_void, SinCos>(p));
+    }
+    (F.unwrap())(x, s, c);
+    rec1("Sin", x, *s);
+    rec1("Cos", x, *c);
+}
+
 /// glibc reference functions for the failure-search oracles (never interposed / recorded).
 pub mod reference {
     use super::*;
